@@ -20,8 +20,13 @@ theorem upd_comm {α β} [DecidableEq α] (f : α → β) {a a' : α} (b b' : β
     upd (upd f a b) a' b' = upd (upd f a' b') a b := by
   funext x
   unfold upd
-  by_cases h1 : x = a' <;> by_cases h2 : x = a <;> simp [h1, h2]
-  exact absurd (h2.symm.trans h1) h
+  by_cases h1 : x = a'
+  · by_cases h2 : x = a
+    · exact absurd (h2.symm.trans h1) h
+    · subst h1; simp [h2]
+  · by_cases h2 : x = a
+    · subst h2; simp [h1]
+    · simp [h1, h2]
 
 /-! ### step equations -/
 
@@ -139,5 +144,307 @@ theorem Inv.excl {c₀ s} (I : Inv c₀ s) {p q : Pid} {op op' : Op} {rest rest'
   rw [hk] at h1
   rw [h1] at h2
   exact Option.some.inj h2
+
+theorem upd_self {α β} [DecidableEq α] (f : α → β) (a : α) : upd f a (f a) = f := by
+  funext x
+  unfold upd
+  by_cases h : x = a
+  · subst h; simp
+  · simp [h]
+
+/-- completing the current update of `p` (which is past `acq`) with the serial effect on its cell
+    preserves the invariant -/
+theorem inv_finish {c₀ s} (I : Inv c₀ s) (p : Pid) (op : Op) (rest : List Op)
+    (h : (s.procs p).ops = op :: rest) (hph : (s.procs p).ph ≠ .acq) :
+    Inv c₀ (finish .full s p (s.procs p) op rest (upd s.cell op.key (op.seq (s.cell op.key)))) := by
+  have hl : s.lock op.key = some p := I.holder p op rest h hph
+  have hpacq : ∀ a b, (startProc .full rest a b).ph = .acq := startProc_full_ph rest
+  -- a process `q ≠ p` past `acq` works on another cell
+  have other : ∀ q op' rest', q ≠ p → (s.procs q).ops = op' :: rest' → (s.procs q).ph ≠ .acq → op'.key ≠ op.key := by
+    intro q op' rest' hqp hq hqph hk
+    exact hqp (I.excl hq hqph h hph hk)
+  refine ⟨?_, ?_, ?_, ?_, ?_, ?_⟩
+  · intro q op' rest' hq hqph
+    by_cases hqp : q = p
+    · subst hqp
+      simp [finish] at hqph
+      exact absurd (hpacq _ _) hqph
+    · simp [finish, hqp] at hq hqph
+      have hk := other q op' rest' hqp hq hqph
+      simp [finish, hl, upd_ne _ _ hk]
+      exact I.holder q op' rest' hq hqph
+  · intro k q hk
+    simp only [finish, hl, if_true] at hk
+    by_cases hkk : k = op.key
+    · subst hkk; simp at hk
+    · rw [upd_ne _ _ hkk] at hk
+      obtain ⟨op', rest', h1, h2, h3⟩ := I.owner k q hk
+      have hqp : q ≠ p := by
+        intro e; subst e
+        rw [h] at h1
+        have : op' = op := by cases h1; rfl
+        subst this
+        exact hkk h2.symm
+      exact ⟨op', rest', by simpa [finish, hqp] using h1, h2, by simpa [finish, hqp] using h3⟩
+  · intro q op' rest' hq hck hqph
+    by_cases hqp : q = p
+    · subst hqp
+      simp [finish] at hqph
+      rw [hpacq] at hqph
+      rcases hqph with e | e <;> cases e
+    · simp [finish, hqp] at hq hqph ⊢
+      have hne : (s.procs q).ph ≠ .acq := by
+        rcases hqph with e | e <;> rw [e] <;> decide
+      have hk := other q op' rest' hqp hq hne
+      rw [upd_ne _ _ hk]
+      exact I.snapEq q op' rest' hq hck hqph
+  · intro q op' rest' hq hqph
+    by_cases hqp : q = p
+    · subst hqp
+      simp [finish] at hqph
+      rw [hpacq] at hqph
+      cases hqph
+    · simp [finish, hqp] at hq hqph ⊢
+      have hne : (s.procs q).ph ≠ .acq := by rw [hqph]; decide
+      have hk := other q op' rest' hqp hq hne
+      rw [upd_ne _ _ hk]
+      exact I.locEq q op' rest' hq hqph
+  · intro k
+    by_cases hkk : k = op.key
+    · subst hkk
+      simp only [finish, upd_same]
+      rw [seqRun_append, ← I.ser]
+    · simp only [finish]
+      rw [upd_ne _ _ hkk, upd_ne _ _ hkk]
+      exact I.ser k
+  · intro k
+    by_cases hkk : k = op.key
+    · subst hkk
+      have h0 := I.acqDone op.key
+      simp only [holderEntry, hl, h] at h0
+      simp only [finish, hl, if_true, upd_same, holderEntry]
+      simpa using h0
+    · have h0 := I.acqDone k
+      simp only [finish, hl, if_true, holderEntry]
+      rw [upd_ne _ _ hkk, upd_ne _ _ hkk]
+      rw [h0, holderEntry]
+      cases hlk : s.lock k with
+      | none => rfl
+      | some q =>
+        obtain ⟨op', rest', h1, h2, _⟩ := I.owner k q hlk
+        have hqp : q ≠ p := by
+          intro e; subst e
+          rw [h] at h1
+          have : op' = op := by cases h1; rfl
+          subst this
+          exact hkk h2.symm
+        simp [upd_ne _ _ hqp]
+
+/-- every step of every process preserves the invariant -/
+theorem inv_step {c₀ s} (I : Inv c₀ s) (p : Pid) : Inv c₀ (step .full s p) := by
+  cases hops : (s.procs p).ops with
+  | nil => rw [step_idle _ _ _ hops]; exact I
+  | cons op rest =>
+    cases hph : (s.procs p).ph with
+    | acq =>
+      cases hl : s.lock op.key with
+      | some q => rw [step_blocked _ _ _ q op rest hops hph hl]; exact I
+      | none =>
+        rw [step_acq _ _ _ op rest hops hph hl]
+        have hnext : nextPh .full op .acq ≠ .acq := by
+          cases op <;> simp [nextPh, Op.isCkpt]
+        -- nobody else is past `acq` on this cell
+        have other : ∀ q op' rest', (s.procs q).ops = op' :: rest' → (s.procs q).ph ≠ .acq → op'.key ≠ op.key := by
+          intro q op' rest' hq hqph hk
+          have := I.holder q op' rest' hq hqph
+          rw [hk, hl] at this
+          cases this
+        refine ⟨?_, ?_, ?_, ?_, ?_, ?_⟩
+        · intro q op' rest' hq hqph
+          by_cases hqp : q = p
+          · subst hqp
+            simp at hq
+            rw [hops] at hq
+            have : op' = op := by cases hq; rfl
+            subst this
+            simp
+          · simp [hqp] at hq hqph
+            have hk := other q op' rest' hq hqph
+            simp [upd_ne _ _ hk]
+            exact I.holder q op' rest' hq hqph
+        · intro k q hk
+          simp only at hk
+          by_cases hkk : k = op.key
+          · subst hkk
+            simp at hk
+            subst hk
+            exact ⟨op, rest, by simp [hops], rfl, by simpa using hnext⟩
+          · rw [upd_ne _ _ hkk] at hk
+            obtain ⟨op', rest', h1, h2, h3⟩ := I.owner k q hk
+            have hqp : q ≠ p := by
+              intro e; subst e
+              exact h3 hph
+            exact ⟨op', rest', by simpa [hqp] using h1, h2, by simpa [hqp] using h3⟩
+        · intro q op' rest' hq hck hqph
+          by_cases hqp : q = p
+          · subst hqp
+            simp at hq hqph
+            rw [hops] at hq
+            have : op' = op := by cases hq; rfl
+            subst this
+            simp [nextPh, hck] at hqph
+          · simp [hqp] at hq hqph ⊢
+            exact I.snapEq q op' rest' hq hck hqph
+        · intro q op' rest' hq hqph
+          by_cases hqp : q = p
+          · subst hqp
+            simp at hqph
+            cases op <;> simp [nextPh, Op.isCkpt] at hqph
+          · simp [hqp] at hq hqph ⊢
+            exact I.locEq q op' rest' hq hqph
+        · intro k; exact I.ser k
+        · intro k
+          by_cases hkk : k = op.key
+          · subst hkk
+            have h0 := I.acqDone op.key
+            simp only [holderEntry, hl] at h0
+            simp [holderEntry, hops, h0]
+          · have h0 := I.acqDone k
+            simp only [holderEntry]
+            rw [upd_ne _ _ hkk, upd_ne _ _ hkk, h0, holderEntry]
+            cases hlk : s.lock k with
+            | none => rfl
+            | some q =>
+              obtain ⟨op', rest', h1, h2, h3⟩ := I.owner k q hlk
+              have hqp : q ≠ p := by
+                intro e; subst e
+                exact h3 hph
+              simp [upd_ne _ _ hqp]
+    | snap =>
+      have hne : (s.procs p).ph ≠ .acq := by rw [hph]; decide
+      cases hn : op.noEffect (s.cell op.key) with
+      | true =>
+        rw [step_snap_noop _ _ _ op rest hops hph hn]
+        have hseq : op.seq (s.cell op.key) = s.cell op.key := by simp [Op.seq, hn]
+        have := inv_finish I p op rest hops hne
+        rw [hseq, upd_self] at this
+        exact this
+      | false =>
+        rw [step_snap _ _ _ op rest hops hph hn]
+        have hl := I.holder p op rest hops hne
+        refine ⟨?_, ?_, ?_, ?_, ?_, ?_⟩
+        · intro q op' rest' hq hqph
+          by_cases hqp : q = p
+          · subst hqp
+            simp at hq
+            rw [hops] at hq
+            have : op' = op := by cases hq; rfl
+            subst this
+            exact hl
+          · simp [hqp] at hq hqph
+            exact I.holder q op' rest' hq hqph
+        · intro k q hk
+          obtain ⟨op', rest', h1, h2, h3⟩ := I.owner k q hk
+          by_cases hqp : q = p
+          · subst hqp
+            exact ⟨op', rest', by simpa using h1, h2, by simp [nextPh]⟩
+          · exact ⟨op', rest', by simpa [hqp] using h1, h2, by simpa [hqp] using h3⟩
+        · intro q op' rest' hq hck hqph
+          by_cases hqp : q = p
+          · subst hqp
+            simp at hq
+            rw [hops] at hq
+            have : op' = op := by cases hq; rfl
+            subst this
+            simp [hn]
+          · simp [hqp] at hq hqph ⊢
+            exact I.snapEq q op' rest' hq hck hqph
+        · intro q op' rest' hq hqph
+          by_cases hqp : q = p
+          · subst hqp
+            simp [nextPh] at hqph
+          · simp [hqp] at hq hqph ⊢
+            exact I.locEq q op' rest' hq hqph
+        · intro k; exact I.ser k
+        · intro k
+          have h0 := I.acqDone k
+          simp only [holderEntry] at h0 ⊢
+          rw [h0]
+          cases hlk : s.lock k with
+          | none => rfl
+          | some q =>
+            by_cases hqp : q = p
+            · subst hqp; simp [hops]
+            · simp [upd_ne _ _ hqp]
+    | read =>
+      have hne : (s.procs p).ph ≠ .acq := by rw [hph]; decide
+      rw [step_read _ _ _ op rest hops hph]
+      have hl := I.holder p op rest hops hne
+      refine ⟨?_, ?_, ?_, ?_, ?_, ?_⟩
+      · intro q op' rest' hq hqph
+        by_cases hqp : q = p
+        · subst hqp
+          simp at hq
+          rw [hops] at hq
+          have : op' = op := by cases hq; rfl
+          subst this
+          exact hl
+        · simp [hqp] at hq hqph
+          exact I.holder q op' rest' hq hqph
+      · intro k q hk
+        obtain ⟨op', rest', h1, h2, h3⟩ := I.owner k q hk
+        by_cases hqp : q = p
+        · subst hqp
+          exact ⟨op', rest', by simpa using h1, h2, by simp⟩
+        · exact ⟨op', rest', by simpa [hqp] using h1, h2, by simpa [hqp] using h3⟩
+      · intro q op' rest' hq hck hqph
+        by_cases hqp : q = p
+        · subst hqp
+          simp at hq
+          rw [hops] at hq
+          have : op' = op := by cases hq; rfl
+          subst this
+          simpa using I.snapEq q op' rest hops hck (Or.inl hph)
+        · simp [hqp] at hq hqph ⊢
+          exact I.snapEq q op' rest' hq hck hqph
+      · intro q op' rest' hq hqph
+        by_cases hqp : q = p
+        · subst hqp
+          simp at hq
+          rw [hops] at hq
+          have : op' = op := by cases hq; rfl
+          subst this
+          simp
+        · simp [hqp] at hq hqph ⊢
+          exact I.locEq q op' rest' hq hqph
+      · intro k; exact I.ser k
+      · intro k
+        have h0 := I.acqDone k
+        simp only [holderEntry] at h0 ⊢
+        rw [h0]
+        cases hlk : s.lock k with
+        | none => rfl
+        | some q =>
+          by_cases hqp : q = p
+          · subst hqp; simp [hops]
+          · simp [upd_ne _ _ hqp]
+    | write =>
+      have hne : (s.procs p).ph ≠ .acq := by rw [hph]; decide
+      rw [step_write _ _ _ op rest hops hph]
+      have hloc := I.locEq p op rest hops hph
+      have hw : op.write (s.procs p).snap (s.procs p).loc (s.cell op.key) = op.seq (s.cell op.key) := by
+        cases hck : op.isCkpt with
+        | true =>
+          have := I.snapEq p op rest hops hck (Or.inr hph)
+          exact write_eq_seq op _ _ _ (fun _ => this.1) hloc this.2
+        | false =>
+          exact write_eq_seq op _ _ _ (fun h => by rw [hck] at h; cases h) hloc (noEffect_nonckpt op _ hck)
+      rw [hw]
+      exact inv_finish I p op rest hops hne
+
+theorem inv_run {c₀ s} (I : Inv c₀ s) (sched : List Pid) : Inv c₀ (run .full s sched) := by
+  induction sched generalizing s with
+  | nil => exact I
+  | cons p rest ih => exact ih (inv_step I p)
 
 end GitAi.Conc
